@@ -384,7 +384,7 @@ impl Prop for C16 {
                "assumptions": ["Palette::resize growing from fewer than 16 colours pre-fills the DOS colours and is not modelled (skipped)"]})
     }
     fn total(&mut self, ctx: &Ctx) -> u64 {
-        64 + ctx.tier.pick(30_000, 1_000_000)
+        64 + ctx.tier.pick(240_000, 1_000_000)
     }
     fn run_case(&mut self, ctx: &mut Ctx, k: u64) {
         let case = self.case_for(ctx, k);
